@@ -4,16 +4,32 @@
 # (so translators, Lean build output and harness builds of the real /verif are not disturbed). Everything is removed afterwards.
 # Output: one line per check "MUTANT <patch> <Cxx> rc=<rc> <VIOLATION line or OK>", full logs under /verif/.build/mutants/.
 set -u
+if [ "$1" = "--clean" ]; then for d in /var/tmp/vm_slot_*; do [ -d "$d/repo" ] && git -C /repo worktree remove --force $d/repo; rm -rf $d; done; exit 0; fi
 PATCH=$(readlink -f "$1"); shift
 V=$(cd "$(dirname "$0")/.." && pwd)
 TAG=$(basename "$(dirname "$PATCH")")_$$
-W=/var/tmp/vm_$TAG
-mkdir -p $W $V/.build/mutants
-git -C /repo worktree add --detach -f $W/repo HEAD >/dev/null 2>&1 || { echo "worktree failed"; exit 2; }
-if ! git -C $W/repo apply "$PATCH" 2>/dev/null && ! (cd $W/repo && patch -p1 -F3 --no-backup-if-mismatch -s < "$PATCH"); then echo "MUTANT $PATCH does-not-apply"; git -C /repo worktree remove --force $W/repo; rm -rf $W; exit 2; fi
-rsync -a --exclude .git --exclude '.build/repo-asan' --exclude '.build/mutants' --exclude '.build/harness' $V/ $W/verif/
-# the copied cmake build dir refers to /repo as its source: reconfigure against the worktree (objects are rebuilt)
-rm -rf $W/verif/.build/repo-rel $W/verif/.build/locks
+mkdir -p $V/.build/mutants
+if [ -n "${MR_SLOT:-}" ]; then
+  # persistent slot: the worktree and the library builds of the scratch copy are kept between runs, so only the files a
+  # patch touches are recompiled (remove the slots with: tools/mutant_run.sh --clean)
+  W=/var/tmp/vm_slot_$MR_SLOT
+  mkdir -p $W
+  exec 9> $W/.lock; flock 9
+  HEAD=$(git -C /repo rev-parse HEAD)
+  if [ ! -d $W/repo ]; then git -C /repo worktree add --detach -f $W/repo HEAD >/dev/null 2>&1 || { echo "worktree failed"; exit 2; }; fi
+  git -C $W/repo checkout -q -- . && git -C $W/repo clean -fdq && git -C $W/repo checkout -q --detach $HEAD || { echo "cannot reset slot worktree"; exit 2; }
+  if ! git -C $W/repo apply "$PATCH" 2>/dev/null && ! (cd $W/repo && patch -p1 -F3 --no-backup-if-mismatch -s < "$PATCH"); then echo "MUTANT $PATCH does-not-apply"; git -C $W/repo checkout -q -- .; exit 2; fi
+  rsync -a --delete --exclude .git --exclude '.build/repo-asan' --exclude '.build/repo-rel' --exclude '.build/mutants' --exclude '.build/harness' --exclude '.build/locks' --exclude 'replays' $V/ $W/verif/
+  rm -rf $W/verif/replays
+else
+  W=/var/tmp/vm_$TAG
+  mkdir -p $W
+  git -C /repo worktree add --detach -f $W/repo HEAD >/dev/null 2>&1 || { echo "worktree failed"; exit 2; }
+  if ! git -C $W/repo apply "$PATCH" 2>/dev/null && ! (cd $W/repo && patch -p1 -F3 --no-backup-if-mismatch -s < "$PATCH"); then echo "MUTANT $PATCH does-not-apply"; git -C /repo worktree remove --force $W/repo; rm -rf $W; exit 2; fi
+  rsync -a --exclude .git --exclude '.build/repo-asan' --exclude '.build/mutants' --exclude '.build/harness' $V/ $W/verif/
+  # the copied cmake build dir refers to /repo as its source: reconfigure against the worktree (objects are rebuilt)
+  rm -rf $W/verif/.build/repo-rel $W/verif/.build/locks
+fi
 for P in "$@"; do
   LOG=$V/.build/mutants/$TAG.$P.log
   (cd $W/verif && VERIF_REPO=$W/repo ./check $P --tier ${VERIF_TIER:-quick} > $LOG 2>&1); RC=$?
@@ -21,5 +37,9 @@ for P in "$@"; do
   echo "MUTANT $(basename $(dirname $PATCH)) $P rc=$RC $LINE"
   [ -n "$(ls $W/verif/replays 2>/dev/null)" ] && cp $W/verif/replays/* $V/.build/mutants/ 2>/dev/null
 done
-git -C /repo worktree remove --force $W/repo
-rm -rf $W
+if [ -n "${MR_SLOT:-}" ]; then
+  git -C $W/repo checkout -q -- .
+else
+  git -C /repo worktree remove --force $W/repo
+  rm -rf $W
+fi
